@@ -4,6 +4,8 @@ functions as well; conflicts, waits and purges are reported to the caller."""
 
 from __future__ import annotations
 
+import importlib
+
 import types
 
 from vf import repo_env
@@ -72,7 +74,16 @@ class Net:
                 self.resp = outbox[0]
 
             def recv(self, n):
+                hook = getattr(net, "before_recv", None)
+                if hook is not None:
+                    hook()
                 return self.resp
+
+            def __getattr__(self, name):
+                # settimeout, setsockopt, getsockname, fileno ...: accepted and ignored
+                if name.startswith("__"):
+                    raise AttributeError(name)
+                return lambda *a, **k: None
 
             def close(self):
                 pass
@@ -110,6 +121,7 @@ class ShmClient(Harness):
     def body(self, ch, params):
         with ch.untraced():
             SEGS.clear()
+            importlib.reload(client)  # module-level state of the client (caches, ...) starts fresh on every path, as in a new process
             w = stubs_shm.reset_world()
             w.now = 10**15
             mgr = stubs_shm.make_manager(64)
@@ -180,6 +192,48 @@ class ShmClient(Harness):
                     raise Violation("store-contents-differ-from-what-clients-did", f"{sorted(mgr.datasets)} vs {sorted(written)}")
                 if mgr.free_space != 64 - sum(len(v[0]) for v in written.values()):
                     raise Violation("free-space-accounting", f"{mgr.free_space}")
+                # two threads of one process (the data server's pool) talk to the store at the same time: thread 1 has sent its
+                # request and is descheduled before it reads the answer; thread 2 does a whole round trip in between
+                if len(written) == 2:
+                    import threading
+
+                    gate, t1_waiting = threading.Event(), threading.Event()
+                    main = threading.get_ident()
+
+                    def before_recv():
+                        if threading.get_ident() != main:
+                            t1_waiting.set()
+                            gate.wait(20)
+
+                    client.socket.before_recv = before_recv
+                    res = {}
+
+                    def t1():
+                        try:
+                            b = client.get("k0", timeout_sec=0.3)
+                            res["k0"] = (bytes(b.view()), b.deser_fun)
+                            b.close()
+                        except Exception as e:
+                            res["k0"] = e
+
+                    th = threading.Thread(target=t1)
+                    th.start()
+                    t1_waiting.wait(20)
+                    try:
+                        b = client.get("k1", timeout_sec=0.3)
+                        res["k1"] = (bytes(b.view()), b.deser_fun)
+                        b.close()
+                    except Exception as e:
+                        res["k1"] = e
+                    gate.set()
+                    th.join(30)
+                    client.socket.before_recv = None
+                    for key in ("k0", "k1"):
+                        if res.get(key) != written[key]:
+                            raise Violation("concurrent-readers-got-each-others-answers", f"{key}: {res.get(key)!r} instead of {written[key]!r}")
+                    for key, ds in mgr.datasets.items():
+                        if ds.ongoing_reads:
+                            raise Violation("reader-left-registered-after-close", key)
                 # the server dies: a client call must come back (with an error) instead of retrying forever - a worker blocked
                 # in it would never handle its shutdown message
                 client.socket.dead = True
